@@ -296,6 +296,14 @@ def s4_custody(F, R, M, roles, rule='S4', only=None):
                                 if x[0] in ('load', 'load0') and x[1][2] and x[1][2][-1][0] == 'f':
                                     cmp_ = x[1][2][-1][1]
                 idx_field = idx_field or cmp_
+                # ... and the Ok path lies on the *equal* edge of that comparison
+                for disc, (kind, vals), _ in p.conds:
+                    d = disc
+                    if d[0] == 'bin' and d[1] in ('Ne', 'Eq') and peeks and derives_from(d, lambda x: x[0] == 'call' and x[1] == peeks[0][1]):
+                        truth = (kind == 'notin' and 0 in vals) or (kind == 'in' and 0 not in vals)
+                        if (d[1] == 'Ne' and truth) or (d[1] == 'Eq' and not truth):
+                            cmp_ = None
+                            det_pol = True
                 slot_ok = bool(takes) and peeks and any(derives_from(e[3][0], lambda x: x[0] == 'call' and x[1] == peeks[0][1]) for e in takes)
                 pop_ok = bool(pops) and peeks and derives_from(pops[0][3][1], lambda x: x[0] == 'call' and x[1] == peeks[0][1])
                 if not (slot_ok and pop_ok and cmp_):
@@ -354,7 +362,32 @@ def s4_custody(F, R, M, roles, rule='S4', only=None):
             sg = supergraph(F, b['id'], opaque=opq, tag='c16')
             paths = [p for p in PathEnum(sg).run() if not p.panicked]
             ok = all(p.ret is not None and derives_from(p.ret, lambda x: x[0] == 'call' and roles.get(x[2]) == 'peek_used') for p in paths) and bool(paths)
-            R.check(ok, rule, '%s:readiness' % b['id'], fn_site(F, b['id']), 'can_recv derives from peek_used', 'can_recv does not reflect the used ring')
+            # folded: true exactly when peek_used yields Some
+            pol = None
+            for some in (0, 1):
+                def leaf(t, some=some):
+                    t_ = t
+                    if t_[0] == 'discr':
+                        t_ = t_[1]
+                    if t_[0] == 'call' and roles.get(t_[2]) == 'peek_used':
+                        return some
+                    if t[0] == 'call' and t[2].rsplit('::', 1)[-1] in ('is_some', 'is_none') and t[3]:
+                        inner = strip_ptr(t[3][0])
+                        v_ = local_value_of_ref(sg.sym, inner) if inner[0] == 'ref' else inner
+                        if v_ is not None and v_[0] == 'call' and roles.get(v_[2]) == 'peek_used':
+                            return some if t[2].endswith('is_some') else 1 - some
+                    raise Unfoldable(fmt(t)[:60])
+                fo = Folder(leaf)
+                try:
+                    hit = [p for p in paths if path_holds(fo, p)]
+                    got = fo.ev(hit[0].ret) if len(hit) == 1 else None
+                except Unfoldable:
+                    got = None
+                    ok = ok and False
+                if got is not None and bool(got) != bool(some):
+                    pol = 'reports %s when the used ring %s a completed buffer' % ('ready' if got else 'not ready', 'holds' if some else 'does not hold')
+            R.check(ok and pol is None, rule, '%s:readiness' % b['id'], fn_site(F, b['id']), 'can_recv is true exactly when peek_used yields a token',
+                    'can_recv does not reflect the used ring: %s' % (pol or 'it does not derive from peek_used'))
     for b in F.bodies.values():
         if b.get('impl_adt') == RAW and b['name'] == 'can_send' and not only:
             sg = supergraph(F, b['id'], opaque=opq, tag='c16')
